@@ -17,8 +17,8 @@ from vlib import runner as R
 from . import kern
 
 PROPERTY = "C17"
-SUPPORTED = [60, 120, 180, 240, 300, 360, 600, 720, 900, 1200, 1800, 3600]
-QUICK_RES = [60, 300, 900, 3600]
+SUPPORTED = [60 * m for m in range(1, 61)]  # every whole-minute resolution from 1 min to 1 h
+QUICK_RES = SUPPORTED
 
 META = {
     "level": "other",
@@ -30,7 +30,7 @@ META = {
                   "Scoreboard.collectIntervals", "scriptplan.core.project.Project.dateToIdx", "Project.idxToDate",
                   "Project.scoreboardSize", "scoreboard_cy.pyx: date_to_idx_fast, idx_to_date_fast, collect_intervals_fast",
                   "time_utils_cy.pyx: project_date_to_idx, project_idx_to_date"],
-    "bounds": "window length 0..2**31 s, indices < 2**31, resolutions from the supported list {60*m : m | 60}, "
+    "bounds": "window length 0..2**31 s, indices < 2**31, every whole-minute resolution 60*m, m = 1..60, "
               "interval scan over tables of <= N slots (quick 6, thorough 9), min duration <= 4 slots; "
               "instants are whole seconds",
     "assumptions": ["one IEEE-754 double division a/b of integer-valued doubles is exact when b | a and otherwise within "
@@ -93,6 +93,7 @@ def run_symbolic(body: Any, impl_kind: str, budget_s: float = 100, max_paths: in
     impl = kern.Impl(impl_kind, True)
     t0 = time.time()
     deadline = t0 + budget_s
+    e.deadline = deadline
     reached = [0]
 
     def fn(en: K.Engine) -> None:
